@@ -182,8 +182,8 @@ CLAIMED = {
              "end_replication): refusals change nothing, notification-stream invariants, ENDED final, run thread gone after ENDED/cleanup; replayed "
              "on the real simulators and validated from recorded random command sequences. (b) SimThreads.tla models the caller and the run thread "
              "at the granularity of accesses to run_state / replication_state / runflag / finalized / the wake-up Event, for caller scripts over "
-             "start, stop, end_replication and cleanup with failing handlers, handlers that call stop(), and START_EVENT / STOP_EVENT listeners that "
-             "issue stop() / start() on the run thread; TLC checks every interleaving for nine safety invariants (six race / listener families of "
+             "start, stop, end_replication and cleanup with failing handlers, handlers that call stop() or cleanup(), and START_EVENT / STOP_EVENT listeners that "
+             "issue stop() / start() on the run thread; TLC checks every interleaving for nine safety invariants (seven race / listener families of "
              "the pinned tree are set aside by history flags and reported as known findings) and, under fairness of both threads and of the clock, "
              "liveness (the threads settle, every command returns, ENDED implies the run thread terminates); every TLC behaviour incl. the "
              "counterexamples and one path per transition of the state graph is executed on the REAL threads by a cooperative scheduler that "
